@@ -143,6 +143,26 @@ fn families(e: &Enc, tier: Tier, f: &mut dyn FnMut(&[u8], Option<usize>)) {
             }
         }
     }
+    // thorough: every 4-byte string behind a lead byte of the encodings with 3/4-byte forms
+    if !q {
+        let leads: Vec<u8> = match e.kind {
+            Kind::Utf8 => (0xC0..=0xFFu8).collect(),
+            Kind::Gb18030 => (0x81..=0xFFu8).collect(),
+            Kind::EucJp => vec![0x8E, 0x8F],
+            Kind::Iso2022Jp => vec![0x1B],
+            _ => vec![],
+        };
+        for a in leads {
+            for b in 0..=255u8 {
+                // GBK shares the decoder with gb18030 and is covered by the smaller families
+                for c in 0..=255u8 {
+                    for d in 0..=255u8 {
+                        f(&[a, b, c, d], None);
+                    }
+                }
+            }
+        }
+    }
     // (b) structured families
     match e.kind {
         Kind::EucJp => {
